@@ -132,6 +132,7 @@ class MapOrElseToMatch(Rule):
 
 
 COMMON = [Rule("R3-retry-path", r"\bkeen_retry::RetryResult::", "RetryResult::", min=0, note="keen_retry::RetryResult -> the unit's plain enum with the same variants"),
+          Rule("R5-discard", r"(?m)^(\s*)_ = ", r"\1let _ = ", min=0, note="`_ = expr;` -> `let _ = expr;`"),
           Rule("R6-wake", r"\bself\.streams_manager\.wake_stream\(", "self.wake_stream(", min=0, note="wake_stream -> channel-level shim (index bound + 'issued while an event was deliverable')"),
           Rule("R6-tx", r"\bself\.tx\.(len|is_full|try_send)\(", r"self.q_\1(", min=0, note="crossbeam Sender -> queue shims"),
           Rule("R6-rx", r"\bself\.rx\.try_recv\(", "self.q_try_recv(", min=0)]
@@ -170,7 +171,7 @@ FNS = [
        sig="pub fn send_with_async(&mut self, setter: Setter) -> (r: RetryResult<Setter>)", sig_anchor=r"async fn send_with_async<F:",
        rules=COMMON + [SETTER_VALUE,
                        Rule("R15-retry-async", r"self\.send\(item\)\s*\.retry_with_async\(\|item\| future::ready\(self\.send\(item\)\)\)\s*\.(\w+)\(([^;]*?)\)\s*\.await;",
-                            lambda m: "{ let first__ = self.send(item); self.retry_async_" + (m.group(1) if m.group(1) in ("yielding_forever", "spinning_forever") else "may_give_up") + "(first__); }", count=1,
+                            lambda m: "{ let first__ = self.send(item); self.retry_async_" + (m.group(1) if m.group(1) in ("yielding_forever", "spinning_forever") else "may_give_up") + "(first__); }", min=0,
                             note="keen-retry async retry -> channel-level shim (yielding_forever: returns once accepted; spinning_forever: requires the first attempt accepted; any other executor may give up)")],
        requires="old(self).wf()",
        ensures="old(self).q@.len() >= BUFFER_SIZE ==> (r matches RetryResult::Transient { input, .. } && input == setter) && final(self).q == old(self).q && final(self).streams_manager == old(self).streams_manager,"
